@@ -208,10 +208,6 @@ func checkC06(c *checkCtx) {
 					} else if canceledAt(n.Exit) || n.Exit.Err != nil {
 						c.cov("c06.cancelled_while_waiting")
 					}
-					nfull := len(nodeListeners(v, n, LFull))
-					if (nfull == 1) != isFull || nfull > 1 {
-						c.fail("C06.onfull", "event", fmt.Sprintf("exec %d: bulkhead returned %s but OnFull fired %d times", v.ID, outcomeStr(n.Exit), nfull))
-					}
 				}
 			}
 		}
